@@ -227,6 +227,19 @@ func RunC07(rc *harness.RunCtx) harness.Outcome {
 			return fail("joint-value-independent-of-party-stream", scName+"|joint", "the joint value (%s) is the same in two runs that differ only in party %d's random stream", base.res.joint, i)
 		}
 		probes["joint_value_changed"]++
+		if sc.jointUniform {
+			ja, e1 := hex.DecodeString(base.res.joint)
+			jb, e2 := hex.DecodeString(alt.res.joint)
+			if e1 == nil && e2 == nil && len(ja) == len(jb) {
+				for o := 0; o < len(ja); o += 8 {
+					e := min(o+8, len(ja))
+					if e-o >= 5 && bytes.Equal(ja[o:e], jb[o:e]) {
+						return fail("joint-value-partly-independent-of-party-stream", scName+"|joint", "bytes [%d,%d) of the joint random value (%d bytes) are identical (%x) in two runs that differ only in party %d's random stream", o, e, len(ja), ja[o:e], i)
+					}
+				}
+				probes["joint_value_windows_changed"]++
+			}
+		}
 	case "hidden-source":
 		alt := c07Exec(rc, sc, map[string]string{"sched": "fifo", "global_rand": "other"})
 		if err := allHonestOK(alt.res); err != nil {
